@@ -156,6 +156,75 @@ class Ctx:
         return 1 if new else 0
 
 
+# ---- time limits -----------------------------------------------------------
+class LibraryHang(BaseException):
+    """a library call did not return within the time limit (not an Exception:
+    the many `except Exception` clauses that record a raising library call
+    must not swallow it)"""
+
+
+class LibraryHangError(Exception):
+    """LibraryHang at the boundary of a pool task / of the check"""
+
+
+class time_limit:
+    """context manager: raise LibraryHang in the current (main) thread when
+    the body takes longer than `seconds` of wall-clock time.  The message
+    names the innermost library frame that was executing, if any."""
+
+    def __init__(self, seconds, what=""):
+        self.seconds = seconds
+        self.what = what
+
+    def _fire(self, signum, frame):
+        import traceback
+        stack = traceback.extract_stack(frame)
+        lib = [f for f in stack if "/src/pydsol/" in f.filename]
+        if lib:
+            f = lib[-1]
+            where = "%s:%s in %s" % (
+                f.filename[f.filename.index("/src/pydsol/") + 5:], f.lineno,
+                f.name)
+        else:
+            where = "outside the library"
+        raise LibraryHang("%s did not return within %s s (executing %s)" % (
+            self.what or "the operation", self.seconds, where))
+
+    def __enter__(self):
+        import signal
+        self._old = signal.signal(signal.SIGALRM, self._fire)
+        self._prev = signal.setitimer(signal.ITIMER_REAL, self.seconds)
+        return self
+
+    def __exit__(self, *a):
+        import signal
+        signal.setitimer(signal.ITIMER_REAL, 0)
+        signal.signal(signal.SIGALRM, self._old)
+        if self._prev and self._prev[0] > 0:
+            # re-arm an enclosing limit (approximately)
+            signal.setitimer(signal.ITIMER_REAL, self._prev[0])
+        return False
+
+
+class _Guarded:
+    """picklable wrapper: run one pool task under a generous time limit, so
+    that a library call that never returns ends as a reported violation and
+    not as a check that hangs until its last-resort watchdog"""
+
+    def __init__(self, fn):
+        self.fn = fn
+
+    def __call__(self, task):
+        limit = float(os.environ.get("VERIF_TASK_TIMEOUT_S", 0) or 0)
+        try:
+            if limit <= 0:
+                return self.fn(task)
+            with time_limit(limit, "a unit of work of the check"):
+                return self.fn(task)
+        except LibraryHang as ex:
+            raise LibraryHangError(str(ex))
+
+
 # ---- worker pool ---------------------------------------------------------
 _POOL = None
 
@@ -176,7 +245,7 @@ def pmap(fn, tasks, chunksize=1):
         return []
     if int(os.environ.get("VERIF_JOBS", NCPU)) <= 1 or len(tasks) == 1:
         return [fn(t) for t in tasks]
-    return pool().map(fn, tasks, chunksize)
+    return pool().map(_Guarded(fn), tasks, chunksize)
 
 
 def pimap(fn, tasks, chunksize=1):
@@ -185,7 +254,7 @@ def pimap(fn, tasks, chunksize=1):
         for t in tasks:
             yield fn(t)
         return
-    for r in pool().imap_unordered(fn, tasks, chunksize):
+    for r in pool().imap_unordered(_Guarded(fn), tasks, chunksize):
         yield r
 
 
